@@ -392,6 +392,12 @@ def gen_ridges(rng, ctx, f):
     x0, y0, x1, y1 = f['_bbox']
     w = max(x1 - x0, y1 - y0)
     side = rng.choice([-1, 1])
+    if EXTRA.get('short_ridges', 0.0) > 0 and rng.random() < EXTRA['short_ridges']:
+        # a ridge shorter than the footprint (points beyond its ends have their foot clamped to an end point), oblique
+        rx = (x0 - U(rng, 0.05, 0.6) * w) if side < 0 else (x1 + U(rng, 0.05, 0.6) * w)
+        ya = y0 + U(rng, 0.2, 0.45) * (y1 - y0)
+        yb = y0 + U(rng, 0.55, 0.8) * (y1 - y0)
+        return [[[rx, ya], [rx + U(rng, -0.3, 0.3) * w, yb]]]
     rx = (x0 - U(rng, 0.05, 0.6) * w) if side < 0 else (x1 + U(rng, 0.05, 0.6) * w)
     ya = y0 - U(rng, 0.1, 0.5) * w
     yb = y1 + U(rng, 0.1, 0.5) * w
@@ -404,7 +410,7 @@ def gen_ridges(rng, ctx, f):
 
 # knobs for model types only some checks want (set by the check around its generation, default off so that the
 # random streams of the other checks do not change)
-EXTRA = {'water': 0.0, 'no_ranges': False, 'random_composition': 0.0}
+EXTRA = {'water': 0.0, 'no_ranges': False, 'random_composition': 0.0, 'short_ridges': 0.0}
 
 
 def gen_water_model(rng, ftype, f, ncomp):
